@@ -104,42 +104,54 @@ def r2b(cx, rec):
 def r3(cx, rec):
     F = cx.F
     f, sb = broad_dispatch(F)
-    tgt, region = C.arm_region(f, sb, 'SendHave')
-    e, ts, o = f.cond(sb)
-    idx_expr = None
-    sends = []
-    pushes = []
-    for bb in mirq.real_calls(f):
-        if bb not in region:
-            continue
-        t = f.blocks[bb]['t']
-        ce = f.expr_call(bb)
-        if 'send_msg' in (t.get('callee') or '') and (t.get('gargs') or [''])[0].endswith('::Have'):
-            arg = ce[2][1]
-            okk = arg[0] == 'call' and arg[1].endswith('Have::new') and 'SendHave>.piece_index' in show(arg[2][0])
-            sends.append((bb, okk))
-        if t.get('name') == 'push' and (access_path(ce[2][0]) or '') == deferred_buffer(F):
-            okk = 'Have::new' in show(ce[2][1]) and 'SendHave>.piece_index' in show(ce[2][1]) and 'frame::Frame::Have' in show(ce[2][1])
-            pushes.append((bb, okk))
-    for bb, okk in sends:
-        rec.site(f, bb, 'send Have(index of the command): %s' % okk)
-        rec.need(okk, 'have-wrong-index/send', f, bb, 'the Have sent does not carry the command\'s piece index')
-    for bb, okk in pushes:
-        rec.site(f, bb, 'buffer Frame::Have(index of the command): %s' % okk)
-        rec.need(okk, 'have-wrong-index/buffer', f, bb, 'the buffered frame is not Have(command index)')
-    via = [bb for bb, _ in sends] + [bb for bb, _ in pushes]
-    ok, bad = C.must_pass(f, via, C.ok_exit_blocks(f), start=tgt)
-    rec.need(bool(sends) and bool(pushes) and ok, 'have-dropped', f, tgt,
-             'a SendHave command can be handled without sending or buffering the announcement')
-    # selection by the choke flag
+    scopes = C.arm_scopes(F, f, sb, 'SendHave')
+    tgt = scopes[0].start
+    total_s = total_p = 0
+    covered_calls = []    # helper calls in the dispatcher that themselves never return Ok without send/buffer
     sel = False
-    for s2 in f.switches():
-        ce, ts2, o2 = f.cond(s2)
-        if (access_path(ce) or '').endswith('peer_state.choked') and f.bool_edges(s2):
-            tt, ff = f.bool_edges(s2)
-            if all(bb in f.only_via_edge((s2, tt)) for bb, _ in pushes) and all(bb in f.only_via_edge((s2, ff)) for bb, _ in sends):
-                sel = True
-                rec.site(f, s2, 'choked -> buffer, unchoked -> send')
+    for sc in scopes:
+        g = sc.fn
+        sends = []
+        pushes = []
+        for bb in mirq.real_calls(g):
+            if bb not in sc.region:
+                continue
+            t = g.blocks[bb]['t']
+            ce = g.expr_call(bb)
+            if 'send_msg' in (t.get('callee') or '') and (t.get('gargs') or [''])[0].endswith('::Have'):
+                arg = sc.outer(ce[2][1])
+                okk = arg[0] == 'call' and arg[1].endswith('Have::new') and 'SendHave>.piece_index' in show(arg[2][0])
+                sends.append((bb, okk))
+            if t.get('name') == 'push' and (access_path(ce[2][0]) or '') == deferred_buffer(F):
+                a = show(sc.outer(ce[2][1]))
+                okk = 'Have::new' in a and 'SendHave>.piece_index' in a and 'frame::Frame::Have' in a
+                pushes.append((bb, okk))
+        for bb, okk in sends:
+            rec.site(g, bb, 'send Have(index of the command): %s' % okk)
+            rec.need(okk, 'have-wrong-index/send', g, bb, 'the Have sent does not carry the command\'s piece index')
+        for bb, okk in pushes:
+            rec.site(g, bb, 'buffer Frame::Have(index of the command): %s' % okk)
+            rec.need(okk, 'have-wrong-index/buffer', g, bb, 'the buffered frame is not Have(command index)')
+        total_s += len(sends)
+        total_p += len(pushes)
+        via = [bb for bb, _ in sends] + [bb for bb, _ in pushes]
+        if sc.via is not None and via:
+            ok, bad = C.must_pass(g, via, C.ok_exit_blocks(g), start=0)
+            if ok:
+                covered_calls.append(sc.via)
+        if sc.via is None:
+            own_via = via
+        # selection by the choke flag
+        for s2 in g.switches():
+            ce, ts2, o2 = g.cond(s2)
+            if (access_path(ce) or '').endswith('peer_state.choked') and g.bool_edges(s2) and sends and pushes:
+                tt, ff = g.bool_edges(s2)
+                if all(bb in g.only_via_edge((s2, tt)) for bb, _ in pushes) and all(bb in g.only_via_edge((s2, ff)) for bb, _ in sends):
+                    sel = True
+                    rec.site(g, s2, 'choked -> buffer, unchoked -> send')
+    ok, bad = C.must_pass(f, own_via + covered_calls, C.ok_exit_blocks(f), start=tgt)
+    rec.need(total_s > 0 and total_p > 0 and ok, 'have-dropped', f, tgt,
+             'a SendHave command can be handled without sending or buffering the announcement')
     rec.need(sel, 'have-selection', f, tgt, 'send-or-buffer is not selected by whether the peer chokes us')
 
 
@@ -201,10 +213,11 @@ def r5(cx, rec):
     F = cx.F
     hn = C07.impl_method(F, dict(C07.messages(F))['Have'], 'new')
     f0, sb = broad_dispatch(F)
-    tgt, region = C.arm_region(f0, sb, 'SendHave')
+    scopes = C.arm_scopes(F, f0, sb, 'SendHave')
     for f, bb in C.callers(F, hn.path):
         rec.site(f, bb, 'Have::new')
-        rec.need(f.path == f0.path and (bb in region), 'have-built-elsewhere/' + F.owner_fn(f).path, f, bb, 'a Have message is built outside the SendHave arm')
+        rec.need(any(f.path == sc.fn.path and bb in sc.region for sc in scopes), 'have-built-elsewhere/' + F.owner_fn(f).path, f, bb,
+                 'a Have message is built outside the SendHave arm')
 
 
 @TABLE.rule('6', 'K3', 'select! branch on the broadcast receiver must not discard RecvError (Lagged) silently', floor=1)
